@@ -52,6 +52,7 @@ const (
 	CNamedBytes
 	CByteArray
 	CNil
+	CSliceNamedU8
 	NumClasses
 )
 
@@ -62,6 +63,7 @@ var ClassName = []string{
 	"slice3-int", "array2", "iface-slice2", "nested-slice", "expr-with-args", "driver-valuer",
 	"driver-valuer-slice", "gorm-valuer", "subquery", "subquery-raw",
 	"json-rawmessage", "net-ip", "named-byte-slice", "byte-array", "untyped-nil",
+	"slice-of-named-uint8",
 }
 
 // StringClasses are the classes whose Go value is a string.
@@ -81,6 +83,10 @@ var PathClasses = []Class{CStr, CQMark, CInt, CNilPtr, CNullInvalid, CBytes, CSl
 
 // NB is a named byte-slice type that is neither []byte nor a driver.Valuer.
 type NB []byte
+
+// LV is a named uint8 type: a []LV is an ordinary slice (one bound value per
+// element), not a byte string.
+type LV uint8
 
 // BA is a byte array.
 type BA [16]byte
@@ -208,6 +214,9 @@ func Make(c Class, id int, base *gorm.DB) Val {
 			per[i] = b[i]
 		}
 		v.V, v.Alts, v.Markers, v.PerByteAlt = val, [][]interface{}{{val}, per}, []string{tok(id, 0)}, 1
+	case CSliceNamedU8:
+		a, b, c3 := LV(11+id%100), LV(117+id%100), LV(151+id%100)
+		v.V, v.Alts = []LV{a, b, c3}, [][]interface{}{{a, b, c3}}
 	case CTime:
 		t := timeOf(id, 0)
 		v.V, v.Alts, v.Markers = t, one(t), []string{fmt.Sprintf("%04d-01-", 3000+id)}
